@@ -39,7 +39,7 @@ inductive RErr where
   | corrupt             -- errors.Corrupted (any message)
   | closed              -- errClosed
   | fault (tag : Nat)   -- the source's own error, unchanged
-  | nilDeref            -- panic: mr.rd is nil (never reachable: RA_no_panic)
+  | nilDeref            -- panic: mr.rd is nil (never reachable: C18_meta_reader_closed)
 deriving Repr, DecidableEq, Inhabited
 
 /-- a source: the bytes it holds, and optionally a position from which on it
